@@ -1,6 +1,9 @@
 from __future__ import annotations
 
+import cmath
 import math
+
+import numpy as np
 
 from opensquirrel.common import ATOL
 from opensquirrel.decomposer.aba_decomposer import ZYZDecomposer
@@ -9,6 +12,7 @@ from opensquirrel.default_gates import CNOT, Ry, Rz, X
 from opensquirrel.ir import BlochSphereRotation, ControlledGate, Float, Gate
 from opensquirrel.merger import general_merger
 from opensquirrel.utils.identity_filter import filter_out_identities
+from opensquirrel.utils.matrix_expander import can1
 
 
 class CNOTDecomposer(Decomposer):
@@ -48,12 +52,25 @@ class CNOTDecomposer(Decomposer):
             A = [Ry(target_qubit, Float(-theta1_with_x / 2)), Rz(target_qubit, Float(-theta2_with_x))]
             B = [Rz(target_qubit, Float(theta2_with_x)), Ry(target_qubit, Float(theta1_with_x / 2))]
 
+            # With the control off the target sees A.B = +-1, with the control on A.X.B, which equals the
+            # target gate up to a phase. The difference of the two phases is a relative phase once controlled;
+            # it depends on the signs dropped when angles are normalized, so measure it.
+            ab_matrix = np.eye(2, dtype=np.complex128)
+            for rotation in [*B, *A]:
+                ab_matrix = can1(rotation.axis, rotation.angle, rotation.phase) @ ab_matrix
+            axb_matrix = np.eye(2, dtype=np.complex128)
+            for rotation in [*B, X(target_qubit), *A]:
+                axb_matrix = can1(rotation.axis, rotation.angle, rotation.phase) @ axb_matrix
+            target_matrix = can1(g.target_gate.axis, g.target_gate.angle, g.target_gate.phase)
+            largest = np.unravel_index(np.argmax(np.abs(axb_matrix)), axb_matrix.shape)
+            controlled_phase = cmath.phase(target_matrix[largest] / axb_matrix[largest] * ab_matrix[0, 0])
+
             return filter_out_identities(
                 [
                     *B,
                     CNOT(g.control_qubit, target_qubit),
                     *A,
-                    Rz(g.control_qubit, Float(g.target_gate.phase - math.pi / 2)),
+                    Rz(g.control_qubit, Float(controlled_phase)),
                 ],
             )
 
